@@ -169,10 +169,15 @@ func c10prog(ps string, res *result) func() {
 		c10rig = nil
 		var s tcell.Screen
 		var r *rig
+		// the stateful codec (7-bit HZ) under the name the tree registers it by
+		hz := "GB2312"
+		if tcell.GetEncoding("HZ-GB-2312") != nil {
+			hz = "HZ-GB-2312"
+		}
 		if p.sim {
 			cs := "UTF-8"
 			if p.legacy {
-				cs = "GB2312" // HZ: single-byte, unencodable runes go to the fallback table, and its codec is stateful
+				cs = hz // HZ: single-byte, unencodable runes go to the fallback table, and its codec is stateful
 			}
 			ss := tcell.NewSimulationScreen(cs)
 			if err := ss.Init(); err != nil {
@@ -183,14 +188,14 @@ func c10prog(ps string, res *result) func() {
 		} else {
 			rigLocale = "en_US.UTF-8"
 			if p.legacy {
-				rigLocale = "zh_CN.GB2312"
+				rigLocale = "zh_CN." + hz
 			}
 			r = newRig(4, 2)
 			rigLocale = "en_US.UTF-8"
 			s = r.s
 			c10rig = r
 			if p.legacy {
-				if cs := s.CharacterSet(); cs != "GB2312" {
+				if cs := s.CharacterSet(); cs != hz {
 					panic("stateful charset rig selected " + cs)
 				}
 				s.SetContent(2, 0, 0x4e16, nil, tcell.StyleDefault) // two-byte character: the encoder leaves ASCII mode
